@@ -55,6 +55,7 @@ fn main() {
       let code = match case["engine"].as_str() {
         Some("hist") => hist::replay(case),
         Some("sched") => sched::replay(case),
+        Some("loom") => props_sched::replay_loom(case),
         Some("buf") => props_buf::replay(case),
         Some("c04-ro") => props_c04::replay_ro(case),
         Some("c09") | Some("c09-ro") | Some("c05") | Some("c06") | Some("c06-unsync") => props_file::replay(case),
